@@ -62,7 +62,8 @@ ASSUMPTIONS = [
 HEADER = ("From Artap Require Import Run.C07Run.\nFrom Coq Require Import List ZArith Floats.\nImport ListNotations.\n"
           "Open Scope float_scope.\n")
 
-VGRID = [-2.0, -1.0, -0.5, 0.0, 0.5, 1.0, 1.5, 2.0, 3.0, 0.1, 0.30000000000000004, 1e-9, 2.5, 0.7]
+# -1.0 / -2.0 collide under hash(); 0.5 / 0.50000000001 are "equal" for Individual.__eq__ (|a-b| < 1e-10)
+VGRID = [-2.0, -1.0, -0.5, 0.0, 0.5, 0.50000000001, 1.0, 1.5, 2.0, 3.0, 0.1, 0.30000000000000004, 1e-9, 2.5, 0.7]
 TRANSIENT = {"T": TimeoutError, "R": RuntimeError}
 STATES = {"EMPTY": "Empty", "IN_PROGRESS": "InProgress", "EVALUATED": "Evaluated", "FAILED": "Failed",
           "empty": "Empty", "in_progress": "InProgress", "evaluated": "Evaluated", "failed": "Failed"}
@@ -112,16 +113,18 @@ def enc_vec(v):
 
 
 def enc_snap(s):
-    vec, costs, signed, state, feas = s
+    vec, costs, signed, state, feas = s[:5]
+    prec = s[5] if len(s) > 5 else 7
     if len(signed) == 0:
         sg = "None"
     else:
         sg = "(Some %s)" % pl(enc_vec(signed[:-1]), bl(bool(signed[-1])))
-    return "(mk %s %s %s %s %s)" % (enc_vec(vec), enc_vec(costs), sg, STATES.get(state, "Failed"), bl(feas))
+    return "(mk %s %s %s %s %s %s)" % (enc_vec(vec), enc_vec(costs), sg, STATES.get(state, "Failed"), bl(feas),
+                                      nl(prec if isinstance(prec, int) and 0 <= prec < 400 else 399))
 
 
 def snap_key(s):
-    vec, costs, signed, state, feas = s
+    vec, costs, signed, state, feas = s[:5]
     return (tuple(bits(x) for x in vec), tuple(bits(x) if is_num(x) else b"?" for x in costs),
             tuple(bits(x) if is_num(x) and not isinstance(x, bool) else bytes([bool(x)]) for x in signed), state, feas)
 
@@ -147,6 +150,13 @@ def make_G(k, thr):
     return G
 
 
+def funcs(lab, cfg):
+    """the objective and the constraint function of a case as pure functions of the vector"""
+    if cfg.get("bench"):
+        return lab.bench_F(cfg["bench"]), None
+    return make_F(len(cfg["crit"]), cfg["coef"]), (make_G(cfg["ncons"], cfg["thr"]) if cfg["ncons"] > 0 else None)
+
+
 # ----------------------------------------------------------------------------- thread control
 class Ctl:
     """Gates for the worker threads and the scheduler that releases one blocked task at a time.
@@ -165,6 +175,7 @@ class Ctl:
         self.stalls = 0
         self.done = False
         self.decisions = 0
+        self.last_released = None
 
     def _go_free(self):
         self.free = True
@@ -226,6 +237,7 @@ class Ctl:
                     return
                 t = self.policy(self)
                 self.decisions += 1
+                self.last_released = t
                 self.granted = t
                 self.cv.notify_all()
                 t0 = time.time()
@@ -259,7 +271,7 @@ def pol_sync_first(c):    # a finished objective is stored at once; objectives i
 
 
 def pol_round_robin(c):   # never release the same task twice in a row if another one is blocked
-    last = c.trace[-1][0] if c.trace else None
+    last = c.last_released
     cand = sorted(c.blocked, key=lambda t: c.pos[t])
     later = [t for t in cand if last is not None and last in c.pos and c.pos[t] > c.pos[last]]
     return (later or cand)[0]
@@ -283,13 +295,14 @@ def pol_target(seq):
         i = len(c.trace)
         if i < len(seq) and seq[i] in c.blocked:
             return seq[i]
-        c.off_target = True
+        if i < len(seq):
+            c.off_target = True              # the wanted task is not blocked at a gate: the merge cannot be realised
         return min(c.blocked, key=lambda t: c.pos[t])
     pol.__name__ = "target"
     return pol
 
 
-NAMED = [pol_fifo, pol_lifo, pol_obj_first, pol_obj_first_rev, pol_sync_first, pol_round_robin]
+NAMED = [pol_fifo, pol_lifo, pol_obj_first, pol_obj_first_rev, pol_sync_first, pol_round_robin, pol_round_robin]
 
 
 # ----------------------------------------------------------------------------- artap side
@@ -313,7 +326,17 @@ class Lab:
         except Exception:
             pass
 
-        class ParProblem(Problem):
+        class Hooks:
+            """mixed into every Problem class used here: an attribute of the shared Problem written by a worker in the
+            middle of Job.evaluate is a point where the scheduler may switch threads"""
+
+            def __setattr__(self, key, value):
+                Problem.__setattr__(self, key, value)
+                s = self.__dict__.get("session")
+                if s is not None and key != "session":
+                    s.preempt()
+
+        class ParProblem(Hooks, Problem):
             def set(self, **kwargs):
                 self.name = "c07"
                 self.parameters = kwargs["parameters"]
@@ -325,16 +348,53 @@ class Lab:
 
             def evaluate_inequality_constraints(self, x):
                 return self.session.constraints(x, super().evaluate_inequality_constraints(x))
-
-            def __setattr__(self, key, value):
-                # shared state written by a worker in the middle of Job.evaluate: let the scheduler switch threads here
-                Problem.__setattr__(self, key, value)
-                s = self.__dict__.get("session")
-                if s is not None and key != "session":
-                    s.preempt()
-        self.ParProblem = ParProblem
+        self.ParProblem, self.Hooks = ParProblem, Hooks
         self.cache = {}
+        self.algs = {}
         self.nfile = 0
+        self.bench = {}
+        self.load_benchmarks()
+
+    def load_benchmarks(self):
+        """a few of artap's own benchmark problems: their real evaluate() runs inside the gated objective, on vectors
+        whose element reads are preemption points (a thread switch in the middle of the objective)"""
+        Hooks = self.Hooks
+        try:
+            import artap.benchmark_functions as bf
+            import artap.benchmark_pareto as bp
+        except Exception as e:
+            self.bench_error = repr(e)
+            return
+        specs = [("Rosenbrock", bf, {"dimension": 3}), ("Ackley", bf, {"dimension": 3}), ("Sphere", bf, {"dimension": 2}),
+                 ("Booth", bf, {}), ("Rastrigin", bf, {"dimension": 2}), ("BiObjectiveTestProblem", bp, {}),
+                 ("PoloniFunction", bp, {}), ("ZDT1", bp, {})]
+        for name, mod, kw in specs:
+            base = getattr(mod, name, None)
+            if base is None:
+                continue
+            try:
+                def evaluate(self, individual, _base=base):
+                    return self.session.objective(individual, real=lambda ind: _base.evaluate(self, ind))
+                W = type("C07_" + name, (Hooks, base), {"evaluate": evaluate})
+                with contextlib.redirect_stderr(io.StringIO()), contextlib.redirect_stdout(io.StringIO()):
+                    wrapped = W(**kw)
+                    pure = base(**kw)
+                wrapped.session = None
+                wrapped.logger.setLevel(self.logging.CRITICAL)
+                pure.logger.setLevel(self.logging.CRITICAL)
+                bounds = [p["bounds"] for p in wrapped.parameters]
+                probe = [b[0] + 0.25 * (b[1] - b[0]) for b in bounds]
+                [float(c) for c in pure.evaluate(self.Individual(list(probe)))]
+                self.bench[name] = (wrapped, pure, bounds)
+            except Exception as e:          # a benchmark that cannot be built here is not our subject
+                self.bench.setdefault("_unavailable", []).append("%s: %r" % (name, e))
+
+    def bench_F(self, name):
+        pure = self.bench[name][1]
+
+        def F(v):
+            return [float(c) for c in pure.evaluate(self.Individual([float(x) for x in v]))]
+        return F
 
     def problem_for(self, dim, crit):
         key = (dim, tuple(crit))
@@ -363,6 +423,13 @@ class Lab:
                 shutil.rmtree(wd, ignore_errors=True)
         except Exception:
             pass
+
+    def algorithm_for(self, problem):
+        key = id(problem)
+        if key not in self.algs:
+            alg = self.DummyAlgorithm(problem)
+            self.algs[key] = (alg, alg.evaluator.job)
+        return self.algs[key]
 
     def db_path(self):
         self.nfile += 1
@@ -406,6 +473,31 @@ class HookedList(list):
         self._session.preempt()
         list.extend(self, other)
         return self
+
+
+class YieldingVector(list):
+    """individual.vector in the benchmark runs: every element read by the objective is a preemption point"""
+
+    def __init__(self, data, session):
+        super().__init__(data)
+        self._session = session
+
+    def __getitem__(self, i):
+        self._session.preempt()
+        r = list.__getitem__(self, i)
+        return list(r) if isinstance(i, slice) else r
+
+    def __iter__(self):
+        for i in range(len(self)):
+            self._session.preempt()
+            yield list.__getitem__(self, i)
+
+    def copy(self):
+        return list(list.__iter__(self))
+
+
+def plain(v):
+    return list(list.__iter__(v)) if isinstance(v, list) else list(v)
 
 
 class Sqlite3Proxy:
@@ -457,9 +549,8 @@ class Session:
 
     def __init__(self, lab, cfg, processes, policy, switch=None):
         self.lab, self.cfg, self.processes, self.policy, self.switch = lab, cfg, processes, policy, switch
-        self.problem = lab.problem_for(cfg["dim"], cfg["crit"])
-        self.F = make_F(len(cfg["crit"]), cfg["coef"])
-        self.G = make_G(cfg["ncons"], cfg["thr"]) if cfg["ncons"] > 0 else None
+        self.problem = lab.bench[cfg["bench"]][0] if cfg.get("bench") else lab.problem_for(cfg["dim"], cfg["crit"])
+        self.F, self.G = funcs(lab, cfg)
         self.lock = threading.Lock()
         self.calls = []            # (task, att, vector, code)
         self.natt = {}
@@ -471,7 +562,7 @@ class Session:
         self.in_evaluate = False
 
     # ---- scripted collaborators
-    def objective(self, individual):
+    def objective(self, individual, real=None):
         t = self.task_of.get(id(individual))
         with self.lock:
             if t is None:
@@ -481,15 +572,18 @@ class Session:
             self.thread_task[threading.get_ident()] = (t, att)
         self.ctl.gate(t, "obj", att)
         try:
-            vec = [float(x) for x in individual.vector]
+            vec = [float(x) for x in plain(individual.vector)]
         except (TypeError, ValueError):
             vec = [math.nan]
         code = self.cfg["fails"].get((t, att), "ok")
         with self.lock:
             self.calls.append((t, att, vec, code))
+        self.preempt()                                # the vector has been read ...
         if code in TRANSIENT:
             raise TRANSIENT[code]("scripted transient failure of design %r, attempt %d" % (t, att))
-        return list(self.F(vec))
+        costs = list(real(individual)) if real is not None else list(self.F(vec))
+        self.preempt()                                # ... the value is computed, not yet returned
+        return costs
 
     def constraints(self, x, base):
         return list(self.G([float(v) for v in x])) if self.G is not None else list(base)
@@ -520,11 +614,11 @@ class Session:
 
     def snap(self, ind):
         try:
-            vec = [float(x) for x in ind.vector]
+            vec = [float(x) for x in plain(ind.vector)]
         except (TypeError, ValueError):
             vec = [math.nan] * 9
         st = ind.state.name if hasattr(ind.state, "name") else str(ind.state)
-        return (vec, list(ind.costs), list(ind.costs_signed), st, bool(ind.features.get("feasible")))
+        return (vec, list(ind.costs), list(ind.costs_signed), st, bool(ind.features.get("feasible")), ind.features.get("precision", 7))
 
     # ---- the run
     def run(self):
@@ -538,6 +632,10 @@ class Session:
                 ind.costs_signed = list(pre.get("signed", []))
                 if "feasible" in pre:
                     ind.features["feasible"] = pre["feasible"]
+            if cfg.get("precs"):
+                ind.features["precision"] = cfg["precs"][len(self.objs)]
+            if cfg.get("bench") and self.policy is not None:
+                ind.vector = YieldingVector(ind.vector, self)
             self.objs.append(ind)
         self.task_of = {id(o): i for i, o in enumerate(self.objs)}
         self.before = [self.snap(o) for o in self.objs]
@@ -553,9 +651,9 @@ class Session:
             self.path = lab.db_path()
             real = lab.SqliteDataStore(p, database_name=self.path)
         p.data_store = GateStore(self, real)
-        alg = lab.DummyAlgorithm(p)
+        alg, real_job = lab.algorithm_for(p)      # ONE Algorithm / Evaluator / Job per Problem for the whole run, as artap does
         alg.options["max_processes"] = self.processes
-        alg.evaluator.job = JobProxy(alg.evaluator.job, self)
+        alg.evaluator.job = JobProxy(real_job, self)
         V = lab.VectorAndNumbers
         saved = V.__dict__["gen_vector"]
         V.gen_vector = self.gen_vector_wrapper()
@@ -617,7 +715,7 @@ class Session:
                     continue
                 feats = r.features if isinstance(r.features, dict) else {}
                 rows[i] = ([float(x) for x in r.vector], list(r.costs), list(r.costs_signed), str(r.state).upper(),
-                           bool(feats.get("feasible")))
+                           bool(feats.get("feasible")), feats.get("precision", 7))
             try:
                 view.data_store.destroy()
             except Exception:
@@ -636,8 +734,8 @@ class Session:
 def oracle(par, ser, cfg, label):
     """The property statement on the implementation's own outputs.  Returns [(what, detail)]."""
     out = []
-    F = make_F(len(cfg["crit"]), cfg["coef"])
-    inp = {"schedule": label, "workers": par.processes, "batch": cfg["batch"], "vectors": cfg["vectors"], "store": cfg["store"],
+    F = par.F
+    inp = {"schedule": label, "objective": cfg.get("bench") or "scripted", "workers": par.processes, "batch": cfg["batch"], "vectors": cfg["vectors"], "store": cfg["store"],
            "criteria": cfg["crit"], "scripted_failures": {"%d:%d" % k: v for k, v in cfg["fails"].items()},
            "state_at_entry": {str(i): p["state"] for i, p in enumerate(cfg["presets"]) if p},
            "gate_trace": [list(e) for e in par.ctl.trace][:60]}
@@ -653,7 +751,7 @@ def oracle(par, ser, cfg, label):
         add(a)
     n = len(cfg["vectors"])
     for i in range(n):
-        vec, costs, signed, state, feas = par.after[i]
+        vec, costs, signed, state, feas = par.after[i][:5]
         pre = cfg["presets"][i]
         mine = [c for c in par.calls if c[0] == i]
         nok = sum(1 for c in mine if c[3] == "ok")
@@ -699,10 +797,8 @@ def oracle(par, ser, cfg, label):
 
 
 # ----------------------------------------------------------------------------- encoding for Coq
-def world(cfg):
+def world(cfg, F, G):
     """The scripted world as tables: outcomes and replacement vectors per (design, attempt), constraint table."""
-    F = make_F(len(cfg["crit"]), cfg["coef"])
-    G = make_G(cfg["ncons"], cfg["thr"]) if cfg["ncons"] > 0 else None
     outs, tape, vecs = [], [], []
     for t, v in enumerate(cfg["vectors"]):
         vec = [float(x) for x in v]
@@ -733,7 +829,7 @@ def enc_side(s, ordered_calls):
 
 
 def encode(cfg, par, ser):
-    outs, tape, cons = world(cfg)
+    outs, tape, cons = world(cfg, par.F, par.G)
     signs = [c == "maximize" for c in cfg["crit"]]
     trace = ll([pl(nl(t if t is not None else 9999), nl(att), "GObj" if kind == "obj" else "GSync") for t, att, kind in par.ctl.trace])
     case = "{| q_signs := %s; q_outs := %s; q_cons := %s; q_tape := %s; q_heap := %s; q_batch := %s%%nat; q_trace := %s |}" % (
@@ -781,7 +877,31 @@ def rand_cfg(rng, n, fail_rate=0.0, store=None, pre_rate=0.12, stale_rate=0.0):
             "coef": [[rng.choice([0.123456789, -1.0 / 3.0, 2.5, 0.0, 1e-3])] + [rng.choice([1.0, -0.7, 1.0 / 7.0, 3.3]) for _ in range(3)]
                      for _ in range(3)],
             "thr": [rng.choice(VGRID) for _ in range(2)], "vectors": vectors, "presets": presets, "batch": batch,
-            "fails": fails, "rerolls": rerolls, "store": store or rng.choice(["sqlite", "sqlite", "memory"])}
+            "fails": fails, "rerolls": rerolls, "store": store or rng.choice(["sqlite", "sqlite", "memory"]),
+            "precs": [rng.choice([7, 7, 7, 7, 3, 0, 10]) for _ in range(n)]}
+
+
+def bench_cfg(rng, lab, n, fail_rate=0.0, name=None):
+    """a batch for one of artap's benchmark problems (real objective code under the gates)"""
+    names = sorted(k for k in lab.bench if not k.startswith("_"))
+    name = name or rng.choice(names)
+    wrapped, _, bounds = lab.bench[name]
+    fr = [0.0, 0.25, 0.5, 0.75, 1.0, 0.1, 0.9, 1.0 / 3.0]
+    pt = lambda: [b[0] + rng.choice(fr) * (b[1] - b[0]) for b in bounds]
+    pool = [pt() for _ in range(2)]
+    vectors = [list(rng.choice(pool)) if rng.random() < 0.3 else pt() for _ in range(n)]
+    batch = list(range(n))
+    if rng.random() < 0.4:
+        rng.shuffle(batch)
+    fails, rerolls = {}, {}
+    for t in range(n):
+        if rng.random() < fail_rate:
+            for att in range(rng.choice([1, 1, 2])):
+                fails[(t, att)] = rng.choice(list(TRANSIENT))
+                rerolls[(t, att)] = pt()
+    return {"bench": name, "dim": len(bounds), "crit": [c.get("criteria") for c in wrapped.costs], "ncons": 0, "coef": [], "thr": [],
+            "vectors": vectors, "presets": [None] * n, "batch": batch, "fails": fails, "rerolls": rerolls,
+            "store": rng.choice(["sqlite", "memory"])}
 
 
 def gate_counts(cfg):
@@ -829,7 +949,7 @@ def one(ctx, lab, cfg, k, policy, label, acc, switch=None):
     acc["expected"].append(exp)
     trace = [(t, att, kind) for t, att, kind in par.ctl.trace]
     acc["meta"].append({"schedule": label, "workers": k, "batch": cfg["batch"], "vectors": cfg["vectors"], "store": cfg["store"],
-                        "criteria": cfg["crit"], "constraints": cfg["ncons"],
+                        "criteria": cfg["crit"], "constraints": cfg["ncons"], "objective": cfg.get("bench") or "scripted",
                         "scripted_failures": {"%d:%d" % kk: v for kk, v in cfg["fails"].items()},
                         "state_at_entry": {str(i): p["state"] for i, p in enumerate(cfg["presets"]) if p}, "gate_trace": trace[:80],
                         "final_parallel": par.after, "final_serial": ser.after, "rows_parallel": par.rows,
@@ -843,6 +963,8 @@ def one(ctx, lab, cfg, k, policy, label, acc, switch=None):
     h["by_batch_size"][str(len(cfg["batch"]))] = h["by_batch_size"].get(str(len(cfg["batch"])), 0) + 1
     h["by_workers"][str(k)] = h["by_workers"].get(str(k), 0) + 1
     h["by_store"][cfg["store"]] = h["by_store"].get(cfg["store"], 0) + 1
+    h["by_objective"][cfg.get("bench") or "scripted"] = h["by_objective"].get(cfg.get("bench") or "scripted", 0) + 1
+    h["scheduler_decisions"] += par.ctl.decisions
     h["with_transient_failures"] += 1 if cfg["fails"] else 0
     h["gate_events"] += len(trace)
     h["objective_calls"] += len(par.calls)
@@ -863,7 +985,7 @@ def run(ctx):
     lab = Lab(ctx)
     rng = ctx.rng
     acc = {"cases": [], "expected": [], "meta": [],
-           "hist": {"schedules": 0, "by_policy": {}, "by_batch_size": {}, "by_workers": {}, "by_store": {}, "with_transient_failures": 0,
+           "hist": {"schedules": 0, "by_policy": {}, "by_batch_size": {}, "by_workers": {}, "by_store": {}, "by_objective": {}, "scheduler_decisions": 0, "with_transient_failures": 0,
                     "gate_events": 0, "objective_calls": 0, "stalls": 0, "surrogate_eval_counter_lost_updates": 0, "off_target": 0, "max_wall_s": 0.0, "free_running": 0,
                     "exhaustive_merges": 0}}
     # ---- corpus: the schedules named in the design, on a fixed batch, both stores
@@ -894,22 +1016,40 @@ def run(ctx):
         cfg = rand_cfg(rng, n, fail_rate=0.0 if j % 3 else 0.45, stale_rate=0.0 if j % 5 else 0.15)
         pol = rng.choice(NAMED + [pol_random(rng.getrandbits(32))] * 4)
         one(ctx, lab, cfg, k, pol, pol.__name__.replace("pol_", ""), acc)
+    # ---- artap's own benchmark problems as the objective: thread switches in the middle of the real evaluate()
+    acc["hist"]["benchmarks"] = sorted(k for k in lab.bench if not k.startswith("_"))
+    if acc["hist"]["benchmarks"]:
+        for name in acc["hist"]["benchmarks"]:          # every benchmark once in lock-step (switch at every preemption point)
+            n = rng.choice([2, 3])
+            one(ctx, lab, bench_cfg(rng, lab, n, name=name), n, pol_round_robin, "round_robin:bench", acc)
+        for j in range(ctx.pick(4, 160)):
+            cfg = bench_cfg(rng, lab, rng.choice([2, 3, 4, 5]), fail_rate=0.0 if j % 3 else 0.3)
+            pol = rng.choice([pol_round_robin, pol_round_robin, pol_round_robin, pol_lifo, pol_random(rng.getrandbits(32)), pol_random(rng.getrandbits(32))])
+            one(ctx, lab, cfg, rng.choice([2, 3, 4]), pol, pol.__name__.replace("pol_", "") + ":bench", acc)
+        for j in range(ctx.pick(2, 30)):
+            cfg = bench_cfg(rng, lab, rng.choice([8, 12, 16]), fail_rate=0.2)
+            one(ctx, lab, cfg, 8, None, "free:bench", acc, switch=1e-6)
+            acc["hist"]["free_running"] += 1
     # ---- thorough: every merge at gate granularity for batches <= 4 (workers = batch size)
     if ctx.thorough:
         for n in (2, 3, 4):
             cfg = rand_cfg(rng, n, fail_rate=0.0, store="sqlite", pre_rate=0.0)
             cfg["batch"] = list(range(n))
             for seq in all_merges(gate_counts(cfg)):
-                one(ctx, lab, cfg, n, pol_target(seq), "exhaustive:%d" % n, acc)
+                par, _ = one(ctx, lab, cfg, n, pol_target(seq), "exhaustive:%d" % n, acc)
                 acc["hist"]["exhaustive_merges"] += 1
+                if par is not None and tuple(t for t, _, _ in par.ctl.trace) != tuple(seq):
+                    acc["hist"]["exhaustive_not_realised"] = acc["hist"].get("exhaustive_not_realised", 0) + 1
         # all merges of 3 designs, one of which fails once (3 + 2 + 2 gate events), real SQLite file
         cfg = rand_cfg(rng, 3, fail_rate=0.0, store="sqlite", pre_rate=0.0)
         cfg["batch"] = [0, 1, 2]
         cfg["fails"] = {(1, 0): "T"}
         cfg["rerolls"] = {(1, 0): [VGRID[(5 + j) % len(VGRID)] for j in range(cfg["dim"])]}
         for seq in all_merges(gate_counts(cfg)):
-            one(ctx, lab, cfg, 3, pol_target(seq), "exhaustive:3f", acc)
+            par, _ = one(ctx, lab, cfg, 3, pol_target(seq), "exhaustive:3f", acc)
             acc["hist"]["exhaustive_merges"] += 1
+            if par is not None and tuple(t for t, _, _ in par.ctl.trace) != tuple(seq):
+                acc["hist"]["exhaustive_not_realised"] = acc["hist"].get("exhaustive_not_realised", 0) + 1
     # ---- free-running stress: 8 workers, tiny switch interval, no gates
     for j in range(ctx.pick(8, 200)):
         n = rng.choice([6, 8, 12, 16, 24])
@@ -918,8 +1058,9 @@ def run(ctx):
         acc["hist"]["free_running"] += 1
     ctx.coq_compare("c07", HEADER, "par_case", "par_obs", "par_run", "par_obs_eqb", acc["cases"], acc["expected"], acc["meta"],
                     shard=ctx.pick(12, 120))
-    ctx.rule = ("one case = one batch (2..6 designs, 6..24 in free-running runs; vectors from a 14-value grid with duplicates; 1..3 objectives, "
-                "0..2 constraints; some designs already evaluated; scripted transient failures per (design, attempt)) evaluated by the real "
+    ctx.rule = ("one case = one batch (2..6 designs, 6..24 in free-running runs; vectors from a 15-value grid with duplicates; 1..3 objectives, "
+                "0..2 constraints, or one of 8 artap benchmark problems as the objective; some designs already evaluated or left IN_PROGRESS / "
+                "FAILED; features['precision'] varied; scripted transient failures per (design, attempt)) evaluated by the real "
                 "Algorithm.evaluate with max_processes 2..4 (8 free-running) under one schedule of the worker threads, plus the real serial "
                 "evaluation of the same batch; non-trivial = the observed gate trace is not the serial order (some job passes a gate while "
                 "another job is between its objective call and its sync); distinct = distinct (policy, workers, batch size, store, "
@@ -936,8 +1077,10 @@ LEVEL_TEXT = ("Machine-checked Coq theorems over a small-step model of parallel 
               "exactly one successful objective call per design, costs = objective value of the stored vector, every evaluated design "
               "persisted with its final data. PARTIAL: the granularity is objective call / store sync as the property states. The model is "
               "tied to the code on every run by driving the real joblib worker threads through generated schedules (gates in the "
-              "objective and in sync_individual, real SQLite file read back through ProblemViewDataStore) and comparing trace, final "
-              "state and rows with the model evaluated in Coq, and with a real serial evaluation of the same batch.")
+              "objective and in sync_individual, further preemption points at shared-Problem attribute writes, problem.failed updates, "
+              "SQLite connects and - with artap's own benchmark problems as objective - at every element read inside the real "
+              "evaluate(); real SQLite file read back through ProblemViewDataStore) and comparing trace, final state and rows with the "
+              "model evaluated in Coq, and with a real serial evaluation of the same batch.")
 LEVEL_NOTE = ("proof, partial. Not modelled but exercised (controlled schedules, all merges for batches <= 4 and 200 free-running 8-worker "
               "runs with sys.setswitchinterval(1e-6) in the thorough tier): CPython byte-code interleavings inside a step, GIL atomicity "
               "of list.append / attribute stores, joblib dispatch, SQLite locking and the OperationalError retry. Hypotheses: the "
